@@ -10,9 +10,9 @@ FUNCS = ['pyg_base._drange:Calendar.is_bday', 'pyg_base._drange:Calendar.is_holi
          'pyg_base._drange:calendar', 'pyg_base._dates:ymd', 'pyg_base._dates:dt']
 BOUNDS = dict(calendar = 'range [t0, t0+W] with t0 any day of 1900-2300 (so every weekday / month-end alignment); W = 14 quick, 21 thorough',
               holidays = 'ANY subset of the W+1 days of the range (one boolean per day, all 2^(W+1) sets at once), subject to the stated run-length assumption',
-              weekend = '{Sat-Sun, Fri-Sat, Sun only, none}', adj = '{f, p, m}', n = '|n| <= 1 (single-step path) and 2 <= |n| <= 3 quick / 6 thorough (indexed path); one obligation per n',
+              weekend = '{Sat-Sun, Fri-Sat, Sun only, none}', adj = '{f, p, m}', n = '|n| <= 1 (single-step path) and 2 <= |n| <= 3 quick / 5 thorough (indexed path); one obligation per n',
               t = 'any day of the range at least 6 days from either end (results leaving the range raise KeyError by design)')
-OUTSIDE = ['n beyond the bound (the statement says 40; the indexed path is the same code for every |n| >= 2, but only |n| <= 6 is explored)',
+OUTSIDE = ['n beyond the bound (the statement says 40; the indexed path is the same code for every |n| >= 2, but only |n| <= 5 is explored)',
            'calendars longer than W days', 'runs of more than 4 consecutive non-business days', 'timeseries arguments', 'trade_date / is_trading (time-of-day sessions)']
 ASSUMPTIONS = ['the probe day carries an ordinal (for weekdays) and civil fields (for the month test of the modified-following convention) that are NOT tied to each other: every weekday is combined with every valid (year, month, day) -- a superset of the real calendar, so proofs carry over; counterexamples are rebuilt from the ordinal and must replay',
                'no run of more than 4 consecutive non-business days inside the range (bounds the adjust/add loops; longer runs would hit the unwinding bound and be reported inconclusive)',
@@ -260,8 +260,26 @@ def h_registry_indexed(c):
     c.check('indexed-add-agrees-with-two-single-steps-under-the-last-registration', key(r) == key(got.add(got.add(probe, sg), sg)))
     Rm.calendars.clear()
 
+def h_two_calendars(c):
+    """two calendars over the same range with different weekends, used one after the other in one process: the index of the second is its own
+    (concrete range starting Monday 2024-01-01, one symbolic holiday, symbolic probe day)"""
+    Rm = R()
+    td = shims.shim_timedelta if c.mode == 'sym' else _rdt.timedelta
+    base = _rdt.datetime(2024, 1, 1); W = 13
+    hol = base + td(days = c.int('hol', 0, W)); probe = base + td(days = c.int('probe', 2, 5))
+    wa, wb = c.pick('weekends', [([5, 6], [4, 5]), ([4, 5], [5, 6]), ([5, 6], [6])])
+    A = Rm.Calendar('A', holidays = [hol], weekend = list(wa), t0 = base, t1 = base + _rdt.timedelta(W))
+    B = Rm.Calendar('B', holidays = [hol], weekend = list(wb), t0 = base, t1 = base + _rdt.timedelta(W))
+    try: A.add(probe, 2)
+    except KeyError: pass
+    sg = c.pick('sign', [1, -1])
+    try: r = B.add(probe, 2 * sg)
+    except KeyError: return
+    c.check('second-calendar-lands-on-one-of-its-own-business-days', X.And(X.Not(X.Or([r.weekday() == w for w in wb])), key(r) != key(hol)))
+    c.check('second-calendar-indexed-path-agrees-with-its-single-steps', key(r) == key(B.add(B.add(probe, sg), sg)))
+
 def obligations(tier):
-    q = tier == 'quick'; W = 14 if q else 21; N = 3 if q else 6
+    q = tier == 'quick'; W = 14 if q else 21; N = 3 if q else 5
     S = setup
     obs = [Ob('gate.gregorian-theory', theory_gate, engine = 'gate', desc = 'Gregorian theory vs CPython date'),
            Ob('gate.rrule-contract', rrule_stub.gate, engine = 'gate', desc = 'rrule contract stub vs the real dateutil.rrule on a grid'),
@@ -273,8 +291,9 @@ def obligations(tier):
             obs.append(Ob('adjust.%s.%s' % (wk, adj), h_adjust(W, wk, adj), setup = S, budget_s = 300, desc = 'adjust(t,%s) is the nearest business day per convention (weekend %s)' % (adj, wk)))
     full = [(wk, adj) for wk in WEEKENDS for adj in 'fpm']
     cfg_step = [('satsun', 'f'), ('satsun', 'p'), ('satsun', 'm'), ('frisat', 'm'), ('sun', 'm'), ('none', 'f')] if q else full
-    cfg_index = [('satsun', 'm'), ('satsun', 'f'), ('frisat', 'p')] if q else full
-    cfg_more = [('satsun', 'm')] if q else full
+    # thorough: every configuration for the single-step path; the indexed path, the inverse laws and drange on a cross-section (the full product ran for hours)
+    cfg_index = [('satsun', 'm'), ('satsun', 'f'), ('frisat', 'p')] if q else [('satsun', 'm'), ('satsun', 'f'), ('satsun', 'p'), ('frisat', 'p'), ('sun', 'm'), ('none', 'f')]
+    cfg_more = [('satsun', 'm')] if q else [('satsun', 'm'), ('frisat', 'f'), ('sun', 'p')]
     for wk, adj in cfg_step:
         for i, sg in enumerate((-1, 0, 1)):
             obs.append(Ob('add.step.%s.%s.%d' % (wk, adj, sg), h_add(W, wk, adj, sg, sg), setup = S, budget_s = 400, desc = 'add(t,%d) (single-step path), weekend %s, adj %s' % (sg, wk, adj)))
@@ -292,6 +311,8 @@ def obligations(tier):
             obs.append(Ob('drange.%s.%s.%d' % (wk, adj, j), h_drange(W, wk, adj), setup = S, pins = {'j': i}, budget_s = 600 if q else 2400,
                           desc = "Calendar.drange(t0,t1,'1b') lists exactly the business days between the adjusted endpoints (endpoints %d days apart)" % j))
     obs.append(Ob('registry', h_registry, setup = S, budget_s = 300, desc = 'calendar(key) reflects the last registration (one step from an arbitrary earlier registration)'))
+    for i in range(3):
+        obs.append(Ob('two-calendars.%d' % i, h_two_calendars, setup = S, pins = {'weekends': i}, budget_s = 600, desc = 'two calendars over the same range with different weekends used in one process: the second answers the indexed path from its own weekend'))
     for i, sg in enumerate((1, -1)):
         obs.append(Ob('registry.indexed.%d' % sg, h_registry_indexed, setup = S, pins = {'sign': i}, budget_s = 600, desc = 'after re-registering a key whose calendar had already built its index, add(t,%d) of the fetched calendar follows the last registration' % (2 * sg)))
     return obs
